@@ -54,7 +54,7 @@ ASSUMPTIONS = ['vf.ref.camx_ref implements the CAMx layouts of DESIGN.md '
                'Appendix A; validated by vf.ref.selfcheck against the '
                'repository samples and the literal arrays of its tests',
                'two-digit years denote 1970-2069']
-BUDGET = {'quick': dict(examples=2400, max_s=200),
+BUDGET = {'quick': dict(examples=4800, max_s=200),
           'thorough': dict(examples=60000, max_s=2400)}
 
 W2R_FORMATS = C.ALL_FORMATS
